@@ -700,6 +700,91 @@ pub fn u32_field(ctx: &Ctx, rep: &mut Report) {
         for _ in 0..ctx.sz(6, 200) {
             polys.push(("random".into(), (0..n).map(|_| rng.gen_range(-(1i64 << 23)..(1 << 23))).collect()));
         }
+        // ACCUMULATING inputs: dense random data adjusted in k+1 places so that, in a radix-2
+        // butterfly network of the usual shape (slot j and slot j + n/2^l combine at layer l with
+        // a twiddle), the running value of slot 0 is u + v_1 + ... + v_k with u and every twiddled
+        // partner v_l congruent to Q - e_l for tiny e_l: an implementation that postpones the
+        // reduction for k layers sees (k+1) Q - (e_0 + ... + e_k) there, which for k = 3 exceeds
+        // 2^32 iff the e's sum to at most 49156. The network shape is CHECKED, not assumed: the
+        // harness simulates all layers with twiddles read off the crate's own transform of the
+        // monomial x and uses the family only if the simulation reproduces the crate's transform.
+        if n >= 4 {
+            let mut xm = vec![0i32; n];
+            xm[1] = 1;
+            if let Ok(ev) = monitored(move || vh::u32_ntt(&xm)) {
+                let ev: Vec<i64> = ev.iter().map(|&x| x as i64).collect();
+                let mulm = |a: i64, b: i64| ((a as i128 * b as i128) % P30 as i128) as i64;
+                let tw = |m: usize, i: usize| -> i64 {
+                    // twiddle of block i at the level with m blocks: (evaluation point of its first slot)^t
+                    let t = n / (2 * m);
+                    powm30(ev[2 * i * t], t as i64)
+                };
+                let sim = |b: &Vec<i64>, layers: usize| -> Vec<i64> {
+                    let mut a = b.clone();
+                    let (mut t, mut m, mut l) = (n, 1usize, 0usize);
+                    while m < n && l < layers {
+                        t >>= 1;
+                        for i in 0..m {
+                            let s_ = tw(m, i);
+                            for j in 2 * i * t..2 * i * t + t {
+                                let u = a[j];
+                                let v = mulm(a[j + t], s_);
+                                a[j] = (u + v) % P30;
+                                a[j + t] = (u - v).rem_euclid(P30);
+                            }
+                        }
+                        m <<= 1;
+                        l += 1;
+                    }
+                    a
+                };
+                let logn = n.trailing_zeros() as usize;
+                let probe: Vec<i64> = (0..n).map(|_| rng.gen_range(0..P30)).collect();
+                let probe_i: Vec<i32> = probe.iter().map(|&x| if x > P30 / 2 { (x - P30) as i32 } else { x as i32 }).collect();
+                let shape_ok = match monitored(move || vh::u32_ntt(&probe_i)) {
+                    Ok(h) => h.iter().map(|&x| x as i64).collect::<Vec<_>>() == sim(&probe, logn),
+                    Err(_) => false,
+                };
+                if shape_ok {
+                    rep.count("butterfly_network_shape_confirmed", 1);
+                    for k in 1..=logn.min(6) {
+                        for total in [k as i64 + 1, 1000, 40_000, 49_150, 49_156, 49_157, 60_000] {
+                            for _rep in 0..ctx.sz(2, 20) {
+                                // e_0..e_k positive, summing to `total`
+                                let mut e = vec![1i64; k + 1];
+                                let mut left = total - (k as i64 + 1);
+                                for x in e.iter_mut().take(k) {
+                                    let d = if left > 0 { rng.gen_range(0..=left) } else { 0 };
+                                    *x += d;
+                                    left -= d;
+                                }
+                                e[k] += left;
+                                let mut b: Vec<i64> = (0..n).map(|_| rng.gen_range(0..P30)).collect();
+                                b[0] = P30 - e[0];
+                                for l in 1..=k {
+                                    let t = n >> l;
+                                    let s_ = tw(1 << (l - 1), 0);
+                                    let cur = sim(&b, l - 1)[t];
+                                    let want = mulm(P30 - e[l], powm30(s_, P30 - 2));
+                                    b[t] = (b[t] + want - cur).rem_euclid(P30);
+                                }
+                                // self-check of the construction
+                                let ok = (1..=k).all(|l| mulm(sim(&b, l - 1)[n >> l], tw(1 << (l - 1), 0)) == P30 - e[l]);
+                                if !ok {
+                                    rep.count("accumulating_construction_failed", 1);
+                                    continue;
+                                }
+                                let signed: Vec<i64> = b.iter().map(|&x| if x > P30 / 2 { x - P30 } else { x }).collect();
+                                polys.push((format!("accumulating-{}-layers-total-{}", k, total), signed));
+                                rep.count("accumulating_inputs", 1);
+                            }
+                        }
+                    }
+                } else {
+                    rep.count("butterfly_network_shape_not_confirmed", 1);
+                }
+            }
+        }
         for (name, a) in polys {
             rep.evaluations += 1;
             let ai: Vec<i32> = a.iter().map(|&x| x as i32).collect();
